@@ -822,7 +822,10 @@ void nested_schedule_node_impl(const void *context, const GraphView &graph,
   // notification (notably a REF rebind that samples an older target)
   // must run in the parent's current cycle, never schedule either
   // graph back at the child's stale clock.
-  when = std::max(when, parent.graph().evaluation_time());
+  // The parent may itself be an idle nested graph whose clock is stale (depth
+  // >= 2): the engine's current time is the ROOT's, and it bounds every clock
+  // on the way down.
+  when = std::max(when, parent.graph().root().evaluation_time());
   schedule_node_impl<NestedGraphRuntimeStorage>(context, graph, node_index,
                                                 when);
 
